@@ -12,7 +12,8 @@ setup_properties on plain particle arrays.  Then, per configuration,
   * setup_properties, get_equations and configure_solver complete (no KeyError / AttributeError / TypeError on the abstract
     arrays).
 
-"A short run leaves all properties finite" is not decided.  Nothing is imported from the repository.
+"A short run leaves all properties finite" is not decided, except for one structural clause of it: a pair hook of an equation whose destination is among its sources does not
+divide by the pair distance outside a test on it (every particle is its own neighbour there).  Nothing is imported from the repository.
 """
 import ast
 import re
@@ -427,11 +428,13 @@ def main(chk):
     chk.floor('Scheme subclasses', len(schemes), 17)
     total_cfg = 0
     total_sites = 0
+    n_div = [0]
     for rel, cls, own in schemes:
         who = cls.name
         if not own:
             chk.note('%s provides no setup_properties (outside the property)' % who)
             continue
+        self_pair = {}
         missing = {}      # (kind, class, role, prop) -> (config text, node, rel, count)
         counted = set()
         ctor = {}
@@ -499,6 +502,9 @@ def main(chk):
                             ctor.setdefault((inst.cls.node.name, '%s(dest=%r, sources=[]) is built with an empty source list although it has %s: the evaluator treats it as source-less and '
                                              'calls %s once per destination particle with nothing bound to its source arguments' % (inst.cls.node.name, dest, '/'.join(pair), pair[0])),
                                             (describe(cfg), inst.node, inst.rel))
+                    # a destination that is among its own sources meets itself as a neighbour (distance zero): remembered for the division rule below
+                    if isinstance(dest, str) and isinstance(srcs, (list, tuple)) and dest in srcs:
+                        self_pair.setdefault((inst.cls.rel, inst.cls.node.name), (inst, describe(cfg)))
                     d, s = hook_requirements(ci, inst.cls, EI.HOOKS)
                     d = dict(d)
                     for nm_, site in python_hook_requirements(ci, inst.cls).items():
@@ -545,6 +551,48 @@ def main(chk):
                          detail='%s - in the configuration [%s]: the scheme\'s set-up code fails on plain particle arrays named after their role' % (key, conf))
         if not crashes:
             chk.holds('setup-completes', who, node=cls, file=rel, func=who, detail='%d configurations interpreted to the end (%d rejected by an explicit raise)' % (ncfg, nrej))
+        # "a short run leaves all properties finite", one structural clause of it: every particle is its own neighbour in an equation whose destination is among its sources,
+        # with RIJ = R2IJ = 0 - a pair hook may divide by the distance only where a test on it (or an additive term in the denominator) keeps that pair out
+        for (crel, cname), (inst, conf) in sorted(self_pair.items()):
+            for hname, (hrel, hcls, hfn) in sorted(EI.resolved_hooks(ci, crel, inst.cls.node, ('loop', 'loop_all')).items()):
+                zs = [a.arg for a in hfn.args.args if a.arg in ('RIJ', 'R2IJ')]
+                if not zs:
+                    continue
+                M.set_parents(hfn)
+                naked = []
+                for dv in ast.walk(hfn):
+                    if not (isinstance(dv, ast.BinOp) and isinstance(dv.op, (ast.Div, ast.FloorDiv, ast.Mod))):
+                        continue
+
+                    def bare(e):
+                        # the denominator vanishes with the distance: the distance itself, a product / power / sqrt of it - not a sum with something else
+                        if isinstance(e, ast.Name):
+                            return e.id in zs
+                        if isinstance(e, ast.BinOp) and isinstance(e.op, ast.Mult):
+                            return bare(e.left) or bare(e.right)
+                        if isinstance(e, ast.BinOp) and isinstance(e.op, ast.Pow):
+                            return bare(e.left)
+                        if isinstance(e, ast.Call) and M.call_name(e) in ('sqrt', 'abs', 'fabs') and e.args:
+                            return bare(e.args[0])
+                        return False
+                    if not bare(dv.right):
+                        continue
+                    cur, guarded = dv, False
+                    while cur is not hfn and not guarded:
+                        par = getattr(cur, 'parent', None)
+                        if par is None:
+                            break
+                        if isinstance(par, (ast.If, ast.IfExp, ast.While)) and cur is not par.test and any(isinstance(x, ast.Name) and x.id in zs for x in ast.walk(par.test)):
+                            guarded = True
+                        cur = par
+                    if not guarded:
+                        naked.append(dv)
+                n_div[0] += 1
+                chk.decide(not naked, 'self-pair-division', '%s:%s.%s' % (who, cname, hname), node=naked[0] if naked else hfn, file=hrel, func='%s.%s' % (hcls.name, hname),
+                           detail_bad='%s builds %s with its destination among its sources (e.g. [%s]), so every particle meets itself with %s = 0; line %d divides by it (`%s`) outside any '
+                                      'test on the distance: 0/0 - the accelerations, then every property they feed, become NaN in the first step' % (
+                                          who, cname, conf, '/'.join(zs), getattr(naked[0], 'lineno', 0) if naked else 0, U(naked[0])[:60] if naked else ''),
+                           detail_ok='every division by %s sits under a test on it' % '/'.join(zs))
         for (cname, bad), (conf, node, r2) in sorted(ctor.items()):
             chk.violated('constructor-keywords', '%s:%s' % (who, cname), node=node, file=r2 or rel, func=who, detail='%s - configuration [%s]' % (bad, conf))
         for (kind, cname, role, prop), (conf, node, r2, cnt, hook) in sorted(missing.items()):
